@@ -422,9 +422,23 @@ func (h *Hist) actMeltInternal() {
 	if h.cfg.mpp && h.rng.Intn(2) == 0 && amount > 1 {
 		part = 1000 * uint64(1+h.rng.Intn(int(amount-1)))
 	}
-	lq := h.OpMeltQuote(mode{}, 0, mq, part, true, true, nil)
+	var forgedMsat uint64
+	if h.rng.Intn(4) == 0 {
+		// somebody else's invoice with the payment hash of the mint's own invoice, of a smaller, equal or larger amount
+		forgedMsat = 1000 * uint64(1+h.rng.Intn(int(amount)+2))
+		if h.rng.Intn(3) == 0 {
+			forgedMsat = 1000
+		}
+	}
+	lq := h.OpMeltQuote(mode{}, forgedMsat, mq, part, true, true, nil)
 	if lq == nil {
 		return
+	}
+	if lq.forged {
+		amount = lq.amount + lq.fee
+		if h.rng.Intn(2) == 0 {
+			h.ScriptPay(lq, 0, h.fresh())
+		}
 	}
 	sp := h.spendable()
 	var ins []inSpec
